@@ -3,8 +3,8 @@
    the configured delay (none for observe_on); delay_subscription / subscribe_on schedule one
    subscribing task.  What such a task can do under ANY order and timing of polls: *)
 From RxModel Require Import Sched Timed.
-From RxSpec Require Import SchedSpec TimedSpec.
-From RxProofs Require SchedLaws TimedLaws RelayLaws.
+From RxSpec Require Import SchedSpec TimedSpec RelayComplete.
+From RxProofs Require SchedLaws TimedLaws RelayLaws RelayCompleteLaws.
 Open Scope N_scope.
 
 (* The operators themselves, for EVERY sequence of labels (input notifications, polls of any task
@@ -67,6 +67,27 @@ Theorem C07_observe_on_fifo_complete :
     = map (fun v => TOut 0 (Next v)) vs ++ [TOut 0 Done].
 Proof. exact RelayLaws.observe_on_fifo_complete. Qed.
 
+(* Completeness under EVERY executor ("all of them when the source completes ... followed by the
+   source's terminal"): the scheduler alone decides when the task of a notification is polled, and
+   whenever it is polled at a moment at which it is due - there is no delay, or the timer its first
+   poll created has elapsed - while the subscriber is still listening (no terminal delivered, not
+   unsubscribed) and the notification has not been delivered, that very poll delivers it; an error
+   that delay forwards directly is delivered by the call that brought it.  `relay_complete`
+   (Spec/RelayComplete.v) walks a trace with exactly that obligation, for every sequence of labels *)
+Theorem C07_delay_complete :
+  forall d ls, relay_complete d true ls (run_timed (TDelay d) ls) = true.
+Proof. exact RelayCompleteLaws.delay_is_complete. Qed.
+
+Theorem C07_observe_on_complete :
+  forall ls, relay_complete 0 false ls (run_timed TObserveOn ls) = true.
+Proof. exact RelayCompleteLaws.observe_on_is_complete. Qed.
+
+(* the obligation is not vacuous: a run that loses the completion of an idle stream is rejected *)
+Example C07_complete_rejects_a_lost_completion :
+  relay_complete 0 true [LSrc Done; LRun 0] [TMark 0; TMark 1] = false /\
+  relay_complete 0 true [LSrc Done; LRun 0] [TMark 0; TMark 1; TOut 0 Done] = true.
+Proof. split; vm_compute; reflexivity. Qed.
+
 (* a failing source: delay forwards the error at once and nothing follows it, whatever happens
    afterwards (the items still waiting for their delay are the lost suffix: "a prefix of them") *)
 Theorem C07_delay_error_prefix :
@@ -103,6 +124,8 @@ Check C07_not_after_unsubscribe : forall cont ls now job delay,
 
 Check C07_delay : forall d ls, relay_ok d true ls (run_timed (TDelay d) ls) = true.
 Check C07_observe_on : forall ls, relay_ok 0 false ls (run_timed TObserveOn ls) = true.
+Check C07_delay_complete : forall d ls, relay_complete d true ls (run_timed (TDelay d) ls) = true.
+Check C07_observe_on_complete : forall ls, relay_complete 0 false ls (run_timed TObserveOn ls) = true.
 Check C07_delay_subscription : forall d ls, passthru_ok d ls (run_timed (TDelaySubscription d) ls) = true.
 Check C07_subscribe_on : forall ls, passthru_ok 0 ls (run_timed TSubscribeOn ls) = true.
 Check C07_delay_order : forall d ls,
@@ -126,6 +149,8 @@ Check C07_delay_error_prefix : forall d vs e rest,
 
 Print Assumptions C07_delay.
 Print Assumptions C07_observe_on.
+Print Assumptions C07_delay_complete.
+Print Assumptions C07_observe_on_complete.
 Print Assumptions C07_delay_subscription.
 Print Assumptions C07_subscribe_on.
 Print Assumptions C07_delay_order.
